@@ -101,6 +101,11 @@ func mutexField(v ssa.Value, l lockID) bool {
 
 // computeHeld: forward must-analysis of "lock held" per instruction of fn.
 func computeHeld(fn *ssa.Function, spec guardSpec, held map[ssa.Instruction]bool) {
+	computeHeldMode(fn, spec, held, false)
+}
+
+// computeHeldMode: with exclusive set, only Lock / Unlock count (a read lock of a sync.RWMutex does not license writes).
+func computeHeldMode(fn *ssa.Function, spec guardSpec, held map[ssa.Instruction]bool, exclusive bool) {
 	in := map[*ssa.BasicBlock]int{} // 0 unknown, 1 held, 2 not held
 	out := map[*ssa.BasicBlock]int{}
 	if len(fn.Blocks) == 0 {
@@ -142,9 +147,9 @@ func computeHeld(fn *ssa.Function, spec guardSpec, held map[ssa.Instruction]bool
 				if _, isGo := ins.(*ssa.Go); isGo {
 					continue
 				}
-				if isLockCall(ins, spec, "Lock") || isLockCall(ins, spec, "RLock") {
+				if isLockCall(ins, spec, "Lock") || (!exclusive && isLockCall(ins, spec, "RLock")) {
 					cur = 1
-				} else if isLockCall(ins, spec, "Unlock") || isLockCall(ins, spec, "RUnlock") {
+				} else if isLockCall(ins, spec, "Unlock") || (!exclusive && isLockCall(ins, spec, "RUnlock")) {
 					cur = 2
 				}
 			}
@@ -277,14 +282,19 @@ func implementersMethods(c *Ctx, pkg string, ifaces []string) map[string][]*ssa.
 
 func checkGuarded(c *Ctx, spec guardSpec) {
 	c.Rule("guarded")
+	// held: some lock mode is held (enough for reads); heldX: the exclusive mode is held (required for writes). For a
+	// plain sync.Mutex the two coincide.
 	held := map[ssa.Instruction]bool{}
+	heldX := map[ssa.Instruction]bool{}
 	var fns []*ssa.Function
 	for _, fn := range c.P.Funcs {
 		fns = append(fns, fn)
 		computeHeld(fn, spec, held)
+		computeHeldMode(fn, spec, heldX, true)
 	}
 	dispatch := implementersMethods(c, spec.pkg, spec.ifaces)
 	needs := map[*ssa.Function]string{}
+	needsW := map[*ssa.Function]bool{} // the need includes a write: only the exclusive mode satisfies it
 	// via[fn]: when every unprotected access of fn goes through objects it received as parameters, the indices of
 	// those parameters (a caller that passes its own private, not yet shared object does not need the lock);
 	// absent = the need is unconditional
@@ -335,12 +345,19 @@ func checkGuarded(c *Ctx, spec guardSpec) {
 					continue
 				}
 				nAccess++
-				if !held[in] {
+				if (w && !heldX[in]) || !held[in] {
 					kind := "reads"
 					if w {
 						kind = "writes"
 					}
-					addNeed(fn, fmt.Sprintf("%s %s at %s without holding %s", kind, what, c.P.Pos(in.Pos()), spec.lock), paramIndex(fn, in.(*ssa.FieldAddr).X))
+					how := "without holding"
+					if held[in] {
+						how = "holding only the read lock of"
+					}
+					addNeed(fn, fmt.Sprintf("%s %s at %s %s %s", kind, what, c.P.Pos(in.Pos()), how, spec.lock), paramIndex(fn, in.(*ssa.FieldAddr).X))
+					if w {
+						needsW[fn] = true
+					}
 				}
 			}
 		}
@@ -369,19 +386,26 @@ func checkGuarded(c *Ctx, spec guardSpec) {
 		changed = false
 		for _, fn := range fns {
 			if _, n := needs[fn]; n {
-				if _, cond := via[fn]; !cond {
+				if _, cond := via[fn]; !cond && needsW[fn] {
 					continue
 				}
 			}
 			for _, b := range fn.Blocks {
 				for _, in := range b.Instrs {
-					if held[in] {
+					if heldX[in] {
 						continue
 					}
 					for _, cal := range calleesOf(in) {
 						r, n := needs[cal]
 						if !n || !c.P.InScope[cal] {
 							continue
+						}
+						if held[in] && !needsW[cal] {
+							continue // a read lock is enough for a callee that only reads
+						}
+						if needsW[cal] && !needsW[fn] {
+							needsW[fn] = true
+							changed = true
 						}
 						reason := fmt.Sprintf("calls %s at %s without holding %s (which %s)", c.fn(cal), c.P.Pos(in.Pos()), spec.lock, r)
 						cv, cond := via[cal]
@@ -898,10 +922,8 @@ func c14LockInventory(c *Ctx) {
 				}
 				n++
 				id := lockID{pk.Types.Name(), typeCanonName(tn), canonicalField(pk.Types.Name() + "." + typeCanonName(tn) + "." + st.Field(i).Name())}.String()
-				if s == "sync.RWMutex" {
-					c.Fail(id, "", "a reader/writer mutex guards this state: the lock-set rules assume exclusive locks (a read lock does not protect the state transitions done by permit requests)", "")
-					continue
-				}
+				// a reader/writer mutex: the guarded-access rule requires the exclusive mode for every write and for every
+				// callee that writes, the shared mode suffices for reads
 				if !known[id] {
 					c.Fail(id, "", "a mutex that is not in the analysed lock table (its guarded fields are unknown to the checker)", "")
 				} else {
@@ -931,7 +953,7 @@ func c14Order(c *Ctx) {
 		for _, b := range fn.Blocks {
 			for _, in := range b.Instrs {
 				for i, s := range specs {
-					if isLockCall(in, s, "Lock") {
+					if isLockCall(in, s, "Lock") || isLockCall(in, s, "RLock") {
 						acq[fn][i] = true
 					}
 				}
@@ -1004,7 +1026,7 @@ func c14Order(c *Ctx) {
 						continue
 					}
 					for j, s := range specs {
-						if isLockCall(in, s, "Lock") {
+						if isLockCall(in, s, "Lock") || isLockCall(in, s, "RLock") {
 							edges[[2]int{i, j}] = fmt.Sprintf("%s at %s", c.fn(fn), c.P.Pos(in.Pos()))
 						}
 					}
